@@ -434,6 +434,14 @@ def _roundtrips(R, tmp, rnd, quick):
         go([("p", None, [("C", (4, 4), ents)])])
         if len(p) <= 3:
             go([("p", 40, [("C", (4, 4), ents), ("C", (4, 4), [(2, [B2]), (2, None)]), ("C", (4, 4), ents)])])
+    # the SAME Bar object at several places of a track (A A, A B A, ...), with different rests pending before it
+    ba = ("C", (4, 4), [(4, [A]), (2, None), (4, None)])
+    bb = ("C", (4, 4), [(4, None), (4, [B2]), (2, [N])])
+    br = ("C", (4, 4), [(1, None)])
+    for bars in ([ba, ("same", 0)], [ba, bb, ("same", 0)], [ba, bb, ("same", 1), ("same", 0)], [br, ba, ("same", 0), ("same", 1)],
+                 [bb, ("same", 0), ("same", 0)], [ba, br, ("same", 0)]):
+        go([("again", None, bars)])
+        go([("again", 40, bars), ("other", None, [bb])], bpm=90)
     # values alone and in pairs
     big = (64, 1)
     for v in INTEGRAL:
